@@ -102,6 +102,7 @@ func c16Run(c *core.Ctx, b core.Batch) {
 	}
 	// one evaluation per race-instrumented execution
 	c.Obs("evaluations", -c16Evals(c)+1)
+	c.ResetDistinct()
 	c.Distinct(b.Name)
 	c.SetAdd("workloads", p.Kind)
 	for k, v := range sched.Counts() {
